@@ -17,7 +17,7 @@ from models.m_io import Reader
 ID = 'C11'
 PROGRAMS = {'core': dict(crate='vaporetto', features=['train', 'kytea'])}
 UNIT_CAP = 150
-BUDGET_S = {'quick': 260, 'thorough': 2400}
+BUDGET_S = {'quick': 600, 'thorough': 1200}      # wall-clock safety caps (exceeding one is reported as inconclusive); typical quick runs take 1-200 s
 
 CORPORA = dict(T.CORPORA)
 CORPORA.update({
